@@ -568,11 +568,13 @@ func (x *Exec) VerifyRoot() ([]*Obligation, error) {
 			env.frame = f // postconditions may mention locals with a single definition (resolved through DebugRefs)
 			env.allocPre = entry.Get(allocName, "Int")
 			env.retBlock = fn.Blocks[r.block]
+			oos := false
+			env.outOfScope = &oos
 			for _, c := range x.rootC.Ensures {
-				env.outOfScope = false
+				oos = false
 				t, err := env.evalBool(c.E)
 				if err != nil {
-					if env.outOfScope {
+					if oos {
 						continue // the clause talks about a local that is not defined on every path to this return
 					}
 					return nil, fmt.Errorf("%s:%d: %v", c.File, c.Line, err)
